@@ -1,0 +1,57 @@
+//go:build verif
+
+package pool
+
+import "sync"
+
+// Verification hook (build tag "verif"): a pool of objects that detects a
+// second Put of an object that is still in the pool, and that keeps released
+// objects in a FIFO quarantine before handing them out again (so that a stale
+// holder and the next holder do not meet by luck of the scheduler only).
+// Objects must be pointers (comparable).
+const vfObjQuarantine = 512
+
+type ObjPool struct {
+	New func() any
+
+	mu sync.Mutex
+	q  []any
+	in map[any]struct{}
+}
+
+func (p *ObjPool) Get() any {
+	p.mu.Lock()
+	if len(p.q) > vfObjQuarantine {
+		v := p.q[0]
+		p.q[0] = nil
+		p.q = p.q[1:]
+		delete(p.in, v)
+		p.mu.Unlock()
+		return v
+	}
+	p.mu.Unlock()
+	if p.New != nil {
+		return p.New()
+	}
+	return nil
+}
+
+func (p *ObjPool) Put(v any) {
+	p.mu.Lock()
+	if p.in == nil {
+		p.in = make(map[any]struct{})
+	}
+	if _, dup := p.in[v]; dup {
+		p.mu.Unlock()
+		vfAbort("double release of a pooled object (%T)", v)
+	}
+	p.in[v] = struct{}{}
+	if cap(p.q)-len(p.q) == 0 && len(p.q) > 0 {
+		// compact: the slice only ever grows at the tail and shrinks at the head
+		nq := make([]any, len(p.q), 2*len(p.q)+16)
+		copy(nq, p.q)
+		p.q = nq
+	}
+	p.q = append(p.q, v)
+	p.mu.Unlock()
+}
